@@ -1843,6 +1843,159 @@ def body_ilv_sys(data) -> Outcome:
 
 
 # =================================================================================================
+# =================================================================================================
+# disk-overlap: a DiskCache put of another *process* is in flight (its value is being serialised) while this process
+# operates on the same directory.  The harness owns the schedule: the in-flight value's __reduce__ reports
+# "entered" and blocks until released, so the overlap is deterministic (never a timing accident).
+# =================================================================================================
+_GATE_FDS: list = []  # [entered_w, release_r] in the child that performs the in-flight put
+
+
+class _Gate:
+    """Pickles to its payload string; the first serialisation in a gated process blocks until released."""
+
+    def __init__(self, payload):
+        self.payload = payload
+
+    def __reduce__(self):
+        if _GATE_FDS:
+            entered_w, release_r = _GATE_FDS
+            del _GATE_FDS[:]
+            os.write(entered_w, b"e")
+            os.read(release_r, 1)
+        return (str, (self.payload,))
+
+
+def _wait_fd(fd, timeout):
+    import select
+
+    r, _, _ = select.select([fd], [], [], timeout)
+    return bool(r)
+
+
+@st.composite
+def overlap_cases(draw):
+    nkeys = draw(st.integers(1, 3))
+    op = st.one_of(
+        st.tuples(st.just("put"), st.integers(0, nkeys - 1)),
+        st.tuples(st.just("put"), st.just(0)),  # the in-flight key is key 0
+        st.tuples(st.sampled_from(["get", "in"]), st.integers(0, nkeys - 1)),
+        st.tuples(st.just("len")),
+    )
+    return {
+        "max_size": draw(st.sampled_from([None, None, 1, 2, 3])),
+        "cp": draw(st.booleans()),
+        "pre": [list(o) for o in draw(st.lists(op, max_size=3))],
+        "during": [list(o) for o in draw(st.lists(op, min_size=1, max_size=4))],
+        "writers": draw(st.sampled_from([1, 1, 2])),  # 2: a second in-flight put of the same key from a third process
+    }
+
+
+def body_overlap(data) -> Outcome:
+    out = Outcome()
+    env = Env()
+    keys = ["a", "b", "c"]
+    kids: list = []
+    try:
+        d = env.newdir()
+        c = DiskCache(d, data["max_size"], use_cloudpickle=data["cp"], with_lru_cache=False)
+        model = DiskModel(data["max_size"], 0)
+        n = [0]
+
+        def apply(op, where):
+            kind = op[0]
+            k = keys[op[1]] if len(op) > 1 else None
+            if kind == "put":
+                n[0] += 1
+                v = f"{where}{n[0]}"
+                got = _try(lambda: do_put(c, k, v, None, env))
+                model.put(k, v)
+                want = None
+            elif kind == "get":
+                got, want = _try(lambda: c.get(k)), model.get(k)
+            elif kind == "in":
+                got, want = _try(lambda: k in c), k in model
+            else:
+                got, want = _try(lambda: len(c)), len(model)
+            if isinstance(got, Raised):
+                out.fail(f"overlap-{where}-{kind}-raised:{got.sig}", f"{op} {got!r}", {"op": op})
+                return False
+            if got != want:
+                out.fail(f"overlap-{where}-{kind}-differs", f"{op}: got {got!r}, the sequential model says {want!r}", {"op": op})
+                return False
+            return True
+
+        for op in data["pre"]:
+            if not apply(op, "pre"):
+                return out
+        # in-flight puts of key 'a' by other processes
+        for w in range(data["writers"]):
+            e_r, e_w = os.pipe()
+            r_r, r_w = os.pipe()
+            res_r, res_w = os.pipe()
+            pid = os.fork()
+            if pid == 0:
+                code = b"k"
+                try:
+                    _GATE_FDS[:] = [e_w, r_r]
+                    try:
+                        c.put("a", _Gate(f"inflight{w}"))
+                    except BaseException as e:  # noqa: BLE001
+                        code = ("x" + exc_detail(e)[:300]).encode()
+                    os.write(res_w, code)
+                finally:
+                    os._exit(0)
+            os.close(e_w), os.close(r_r), os.close(res_w)
+            kids.append({"pid": pid, "entered": e_r, "release": r_w, "result": res_r, "w": w})
+            if not _wait_fd(e_r, 60):
+                out.labels.append("overlap-inconclusive-child-never-entered")
+                return out
+        overlapped_same_key = False
+        for op in data["during"]:
+            overlapped_same_key |= op[0] == "put" and op[1] == 0
+            if not apply(op, "during"):
+                return out
+        # release the in-flight puts one after the other: each linearises at its rename, i.e. now
+        for kid in kids:
+            env.wait_after_dir(d)
+            os.write(kid["release"], b"r")
+            if not _wait_fd(kid["result"], 60):
+                out.labels.append("overlap-inconclusive-child-never-finished")
+                return out
+            msg = os.read(kid["result"], 400).decode(errors="replace")
+            os.waitpid(kid["pid"], 0)
+            kid["pid"] = None
+            if msg != "k":
+                out.fail(f"overlap-inflight-put-raised:{msg[1:].split(':')[0][:40]}", f"put of 'a' from process {kid['w']} raised {msg[1:]}",
+                         {"writer": kid["w"]})
+                return out
+            model.put("a", f"inflight{kid['w']}")
+        for i, k in enumerate(keys):
+            if not apply(["in", i], "post") or not apply(["get", i], "post"):
+                return out
+        apply(["len"], "post")
+        out.labels.append(f"overlap-writers{data['writers']}")
+        out.labels.append("overlap-same-key-put-during" if overlapped_same_key else "overlap-other-ops-during")
+        out.labels.append(f"overlap-max{data['max_size']}")
+        out.nontrivial = True
+        out.units = len(data["pre"]) + len(data["during"]) + data["writers"] + 7
+    finally:
+        for kid in kids:
+            if kid["pid"]:
+                try:
+                    os.kill(kid["pid"], 9)
+                    os.waitpid(kid["pid"], 0)
+                except OSError:
+                    pass
+            for fd in (kid["entered"], kid["release"], kid["result"]):
+                try:
+                    os.close(fd)
+                except OSError:
+                    pass
+        env.close()
+    return out
+
+
 def campaigns(tier):
     return [
         Campaign("bfs", body_bfs, enumerate=enum_bfs, quick=0, thorough=0, exhaustive=True, shards_quick=13, shards_thorough=13,
@@ -1858,6 +2011,10 @@ def campaigns(tier):
                           "round trip) on a real Manager-backed cache"),
         Campaign("interleave", body_interleave, ilv_cases(), quick=8000, thorough=120000,
                  describe="drawn programs and schedules on the fake Manager"),
+        Campaign("disk-overlap", body_overlap, overlap_cases(), quick=400, thorough=8000,
+                 describe="DiskCache: sequential-model oracle for this process's operations while one or two other processes "
+                          "have a put of the same directory in flight (blocked inside the value's serialisation), then the "
+                          "in-flight puts complete one by one"),
         Campaign("ilv-sys", body_ilv_sys, enumerate=enum_ilv_sys(tier), quick=0, thorough=0, exhaustive=False,
                  describe="all schedules (up to a cap) of small two/three-thread programs"),
     ]  # fmt: skip
